@@ -115,9 +115,12 @@ class Hist:
                         data = bytes(rng.randint(1, 3)) + data
                 op = f"n{i}:{st}:{hexs(data)}"
         elif tp == "r":
-            val = rng.choice([0.0, 1.5, -2.25, 1e300, 3.141592653589793, float(rng.randint(-5, 5)), rng.random()])
+            val = rng.choice([0.0, 1.5, -2.25, 1e300, 3.141592653589793, float(rng.randint(-5, 5)), rng.random(),
+                              0.0, -0.0, -0.0, float("nan"), float("nan"), float("inf"), float("-inf")])
             le = struct.pack("<d", val)
             if rng.random() < 0.5:
+                if val != val and rng.random() < 0.5:
+                    le = struct.pack("<Q", 0x7ff8000000000000 | rng.choice([1, 0x8000000000000000]))   # another NaN bit pattern
                 op = f"f{i}:{hexs(le)}"
             else:
                 txt = repr(val)
